@@ -254,6 +254,20 @@ func (s LWs) Close() (err error) {
 	return
 }
 
+// SetLevel tells every member that asks for it (LevelSettable) the severity
+// of the record about to be written.
+func (s LWs) SetLevel(lvl Level) {
+	for _, w := range s {
+		if x, ok := w.(LevelSettable); ok {
+			x.SetLevel(lvl)
+		} else if xl, ok := w.(*logwr); ok {
+			if x, ok := xl.Writer.(LevelSettable); ok {
+				x.SetLevel(lvl)
+			}
+		}
+	}
+}
+
 func (s LWs) Write(p []byte) (n int, err error) {
 	// TO/DO implement me
 	// /panic("implement me")
